@@ -534,6 +534,8 @@ Definition upd_own (ty : utype) (l : list uptr) : utype :=
 Definition upd_ptr (l : list uptr) (p : uptr) : list uptr :=
   map (fun y => if N.eqb (up_id y) (up_id p) then p else y) l.
 
+Definition all_ptrs (us : uschema) : list uptr := flat_map ut_own (u_types us).
+
 Inductive uev :=
 | UCreateType (n : N) (abstract : bool) (bases : list N)
 | UDropType (n : N)
@@ -584,6 +586,7 @@ Definition ustep (us : uschema) (e : uev) : ures :=
           | Some bts =>
               let bids := map ut_id bts in
               if negb (nodup_ids bids) then UOutOfScope
+              else if negb (pairwise_disjoint (map (fun b => b :: ancestors us b) bids)) then UOutOfScope
               else if negb (pairwise_disjoint (map (fun b => vis_names us b) bids)) then UOutOfScope
               else
                 let t := u_next us in
@@ -603,8 +606,12 @@ Definition ustep (us : uschema) (e : uev) : ures :=
                    [FDropType t]
       end
   | URenameType n m =>
+      if N.eqb n m then (match find_type us n with Some _ => UOk us [] | None => URejected end) else
       match find_type us n, find_type us m with
       | Some ty, None =>
+          (* expressions of computed links mention the type by name: rewriting them is schema-layer work *)
+          if existsb (fun p => up_link p && up_comp p && N.eqb (up_target p) (ut_id ty)) (all_ptrs us)
+          then UOutOfScope else
           UOk (upd_type us (mkType (ut_id ty) m (ut_abstract ty) (ut_bases ty) (ut_own ty))) []
       | _, _ => URejected
       end
@@ -620,6 +627,8 @@ Definition ustep (us : uschema) (e : uev) : ures :=
           let bt := ut_id bty in
           if mem_id bt (cone us t) then URejected
           else if mem_id bt (ut_bases ty) then UOutOfScope
+          else if negb (forallb (fun d => disjoint (bt :: ancestors us bt) (ancestors us d)) (cone us t))
+          then UOutOfScope
           else if negb (forallb (fun d => disjoint (vis_names us bt) (vis_names us d)) (cone us t))
           then UOutOfScope
           else UOk (upd_type us (mkType t (ut_name ty) (ut_abstract ty) (ut_bases ty ++ [bt]) (ut_own ty)))
@@ -628,10 +637,11 @@ Definition ustep (us : uschema) (e : uev) : ures :=
       end
   | UDropBase n b =>
       match find_type us n, find_type us b with
+      | Some _, None => UOk us []        (* DROP EXTENDING of an unknown name is accepted as a no-op *)
       | Some ty, Some bty =>
           let t := ut_id ty in
           let bt := ut_id bty in
-          if negb (mem_id bt (ut_bases ty)) then URejected
+          if negb (mem_id bt (ut_bases ty)) then UOk us []     (* accepted, nothing to do *)
           else UOk (upd_type us (mkType t (ut_name ty) (ut_abstract ty)
                                         (filter (fun x => negb (N.eqb bt x)) (ut_bases ty)) (ut_own ty)))
                    (flat_map (fun d => map (fun p => FDeletePtr d (up_id p)) (vis us bt)) (cone us t))
@@ -673,6 +683,7 @@ Definition ustep (us : uschema) (e : uev) : ures :=
           match find_ptr (ut_own ty) p with
           | None => URejected
           | Some pt =>
+              if N.eqb p p' then UOk us [] else      (* RENAME TO the same name: accepted no-op *)
               if mem_id p' (vis_names us (ut_id ty)) then URejected
               else if existsb (fun d => mem_id p' (vis_names us d)) (descendants us (ut_id ty))
               then UOutOfScope
@@ -689,6 +700,7 @@ Definition ustep (us : uschema) (e : uev) : ures :=
           | None => if mem_id p (vis_names us (ut_id ty)) then UOutOfScope else URejected
           | Some pt =>
               if Bool.eqb (up_multi pt) b then UOutOfScope
+              else if up_comp pt then UOutOfScope    (* the cardinality of a computed pointer is inferred *)
               else UOk (upd_type us (upd_own ty (upd_ptr (ut_own ty)
                           (mkPtr (up_id pt) (up_name pt) (up_link pt) (up_target pt) b
                                  (up_req pt) (up_comp pt) (up_lps pt)))))
@@ -716,6 +728,7 @@ Definition ustep (us : uschema) (e : uev) : ures :=
           | Some pt =>
               (* a USING expression of another cardinality / target changes more than computed-ness *)
               if b && negb (Bool.eqb em (up_multi pt)) then UOutOfScope
+              else if b && up_req pt then UOutOfScope   (* inferred optionality may contradict `required` *)
               else if b && up_link pt
                       && negb (match find_type us tg with
                                | Some tgt => N.eqb (ut_id tgt) (up_target pt)
@@ -773,6 +786,8 @@ Definition ustep (us : uschema) (e : uev) : ures :=
           match find_ptr (ut_own ty) p with
           | None => if mem_id p (vis_names us (ut_id ty)) then UOutOfScope else URejected
           | Some pt =>
+              if N.eqb q q' then (match find_lp_name (up_lps pt) q with
+                                  | Some _ => UOk us [] | None => URejected end) else
               match find_lp_name (up_lps pt) q, find_lp_name (up_lps pt) q' with
               | Some l, None =>
                   UOk (upd_type us (upd_own ty (upd_ptr (ut_own ty)
@@ -849,7 +864,6 @@ Fixpoint srun (s : state) (h : list uev) : state * sres :=
 (* names for the correspondence printout *)
 Definition type_name (us : uschema) (t : id) : option N :=
   option_map ut_name (find_type_id us t).
-Definition all_ptrs (us : uschema) : list uptr := flat_map ut_own (u_types us).
 Definition ptr_name (us : uschema) (p : id) : option N :=
   option_map up_name (find (fun x => N.eqb p (up_id x)) (all_ptrs us)).
 Definition lp_name_of (us : uschema) (q : id) : option N :=
